@@ -33,9 +33,18 @@ ASSUMPTIONS = [
     "schedule `yields`; wall-clock latency of the alive-check reply is outside the model ('within the alive-check time' is "
     "proved and checked as 'in the reader-task step that parsed the request, before the next frame is handled, at the "
     "virtual instant the request is complete')",
-    "one client task uses the connection (a call issued while another one is pending is not part of the model; concurrent "
-    "users of one client are property C05); between two events the loop comes to rest, i.e. a client call starts when the "
-    "reader task has parsed what has arrived",
+    "the models have one client task (concurrent users of one client are property C05); between two events the loop comes "
+    "to rest, i.e. a client call starts when the reader task has parsed what has arrived.  Two client tasks on one "
+    "connection - one blocked in read() with / without timeout while the other writes and then reads - are driven against "
+    "the real code with a reactive gateway (the request of the writer goes on the wire when the blocked read lets go of "
+    "the connection mutex, so the instant of the acknowledgement depends on the code) and judged WITHOUT a model run by the "
+    "clauses of the property on the implementation's own trace (lib/doip2.py `facts`, like clause S9 of C07): every write "
+    "ends as the gateway acknowledged that request (never acknowledged: connection error within the acknowledgement "
+    "time), reads of both tasks in the order they return ++ what is still queued = the target->source messages in wire "
+    "order, frames no call accepted are still queued, every alive check answered at its arrival, no call hangs; what the "
+    "mutex buys is stated on the queue level as `doip_blocked_reader_serialised`",
+    "message sizes: the only bound is the 32 bit payload length field (`doip_delivers_any_length`); driven up to 70000 "
+    "bytes of user data / request, sizes around 4095 exhaustively",
     "exact ties are not generated: a gateway segment arriving at the very instant a call starts or a timer expires (the "
     "order of equal-time callbacks is an event-loop detail; the model lets timers go first and the caller's timer, armed "
     "first, win against the 2 s protocol timer); a caller timeout of 0 (asyncio.wait_for special-cases it)",
@@ -1482,13 +1491,17 @@ MANIFEST = {
                    "length 2 (3 over a reduced alphabet) x every placement into 5 instants, acknowledgements around both kinds of "
                    "deadline followed by further writes, bursts of 33-80 unconsumed frames with alive checks behind them, frames then "
                    "end of stream then calls, seeded scripts of 2-6 calls and 0-8 frames at generated times with cuts inside frames, "
-                   "both drain schedules; compared call by call (result, instant) and as whole executions (every byte written with its "
+                   "both drain schedules; message sizes 0 / 1 / 4090..4097 / 65535 / 70000 (user data of diagnostic messages in every phase, "
+                   "requests with the acknowledgement echoing all / part / nothing / too much of them); two client tasks (blocked "
+                   "reader + writer) x acknowledgement kinds x arrangements x unsolicited frames against a reactive gateway, judged "
+                   "by the property clauses on the trace; compared call by call (result, instant) and as whole executions (every byte written with its "
                    "instant, the reader's trace of frames handled / alive checks answered, final queue, closed flag)."),
     "level_note": ("Trusted: Lean kernel (axioms propext, Quot.sound, Classical.choice), asyncio contracts (StreamReader."
                    "readexactly, Queue FIFO / non-suspending get on a non-empty queue, wait_for cancellation, Lock release), struct, "
                    "the generator and the harness (incl. the script-to-event-list runner in the driver). Partial: kernel TCP "
                    "behaviour, real drain() back-pressure and wall-clock latency of the alive-check reply are not modelled; one client "
-                   "task (concurrent users are C05); client calls start when the loop has come to rest; exact ties of timers / arrivals "
+                   "task in the models (two tasks on one connection are checked on the implementation's traces only; concurrent users "
+                   "of one client are C05); client calls start when the loop has come to rest; exact ties of timers / arrivals "
                    "are not generated; the write / read outcome theorems assume the reader task survives the continuation (what "
                    "happens when it does not is proved separately: the call ends in that very event, with the frame it was woken with or "
                    "a connection error; bounded-time recovery is C08)."),
